@@ -7,14 +7,21 @@ import (
 	"bufio"
 	"flag"
 	"fmt"
+	"io"
 	"os"
 	"strings"
 
+	"github.com/irai/packet/fastlog"
+
+	"verif/harness/c01"
 	"verif/harness/c15"
 	"verif/harness/core"
 )
 
 var runners = map[string]core.Runner{
+	"C01": c01.Runner01,
+	"C02": c01.Runner02,
+	"C16": c01.Runner16,
 	"C15": c15.Runner,
 }
 
@@ -28,6 +35,12 @@ func main() {
 	known := flag.String("known", "", "comma separated known finding ids")
 	replay := flag.String("replay", "", "replay file: evaluate its protocol lines on implementation and model, verbosely")
 	flag.Parse()
+	// the library logs to stderr through fastlog and prints tables with fmt.Printf: silence both
+	fastlog.DefaultIOWriter = io.Discard
+	core.Out = os.Stdout
+	if null, err := os.OpenFile(os.DevNull, os.O_WRONLY, 0); err == nil {
+		os.Stdout = null
+	}
 	run, ok := runners[*prop]
 	if !ok {
 		fmt.Fprintln(os.Stderr, "no runner for", *prop)
@@ -57,7 +70,7 @@ func main() {
 				cs.Class = "replay"
 				c.Add(*cs)
 			} else {
-				fmt.Println("not a protocol line of", *prop, ":", l)
+				fmt.Fprintln(core.Out, "not a protocol line of", *prop, ":", l)
 			}
 		}
 	} else {
